@@ -298,7 +298,12 @@ Begin(a) ==
   /\ pc[a] = "idle"
   /\ opi[a] <= Len(Prog[a])
   /\ Role[a] = "committer"
-  /\ loc' = [loc EXCEPT ![a] = EmptyLoc]
+  \* delete_snapshot(id): the caller names the snapshot when it makes the call - a snapshot of another actor's operation
+  \* can only be named once that operation's pointer flip happened (otherwise the id names nothing: sid 0)
+  /\ loc' = [loc EXCEPT ![a] = IF OpKind(a) = "delsnap"
+                                THEN [EmptyLoc EXCEPT !.sid = (IF CurOp(a).who \in DOMAIN sidOfOp THEN sidOfOp[CurOp(a).who]
+                                                               ELSE IF CurOp(a).who[1] = "init" THEN 900 + CurOp(a).who[2] ELSE 0)]
+                                ELSE EmptyLoc]
   /\ att' = [att EXCEPT ![a] = 0]
   /\ pc' = [pc EXCEPT ![a] = IF OpKind(a) = "delsnap" THEN "ds_resolve" ELSE IF OpKind(a) = "create" THEN "k_open" ELSE "tx_check"]
   /\ UNCHANGED <<storageVars, clock, lockHolder, rlock, opi, faults, lease, ghostVars, scanning>>
@@ -644,6 +649,9 @@ SerialApply(s, a, sid) ==
                           THEN (IF Len(rest) = 0 THEN {} ELSE tsOf[LastOf(rest)].files)
                           ELSE s.files]
 
+CasOK(a) == Backend # "s3cas" \/ (hint.cls = "name" /\ hint.name = loc[a].etagName)
+                               \/ (hint.cls # "name" /\ loc[a].etagName = NoName)
+
 \* the commit point (metadata_manager.py:285-320)
 FlipHint(a) ==
   /\ pc[a] = "c_flip"
@@ -684,6 +692,16 @@ TUnlock(a) ==
   /\ rlock' = [rlock EXCEPT ![Handle[a]] = "none"]
   /\ pc' = [pc EXCEPT ![a] = IF loc[a].after = "cme" THEN AfterCme(a) ELSE loc[a].after]
   /\ loc' = [loc EXCEPT ![a].err = IF loc[a].after = "cme" THEN "cme" ELSE loc[a].err]
+  /\ UNCHANGED <<storageVars, clock, lockHolder, opi, att, faults, lease, ghostVars, scanning>>
+
+\* the distributed lock could not be acquired within its timeout (TimeoutError out of lock_provider.acquire): commit()
+\* leaves through the thread lock's release only - the distributed lock was never taken - and the transaction rolls back
+LockTimeout(a) ==
+  /\ pc[a] = "c_dlock"
+  /\ LockKind # "none"
+  /\ rlock' = [rlock EXCEPT ![Handle[a]] = "none"]
+  /\ pc' = [pc EXCEPT ![a] = IF OpKind(a) # "delsnap" THEN "rollback" ELSE "raise_keep"]
+  /\ loc' = [loc EXCEPT ![a].err = "error"]
   /\ UNCHANGED <<storageVars, clock, lockHolder, opi, att, faults, lease, ghostVars, scanning>>
 
 \* time.sleep(backoff), then a new attempt from ReadBase with fresh ids
@@ -806,6 +824,7 @@ Fault(a, kind) ==
                                            ELSE IF OpKind(a) # "delsnap" /\ RollsBack(a, kind, TRUE) THEN "rollback" ELSE "raise_keep"]
         /\ UNCHANGED <<hint, commitLog, serial, tsOf, sidOfOp>>
      \/ /\ p = "c_flip" /\ kind = "after"
+        /\ CasOK(a)            \* (a conditional write whose precondition fails does not land: that is a plain conflict)
         \* the PUT landed, the client saw an error: AmbiguousCommitError, nothing is deleted
         /\ hint' = [cls |-> "name", name |-> MyMetaName(a)]
         /\ commitLog' = Append(commitLog, [a |-> a, i |-> opi[a], name |-> MyMetaName(a), op |-> OpKind(a), replaced |-> HintedName, validated |-> loc[a].valName, lost |-> a \in lease.lost])
@@ -1007,8 +1026,7 @@ DsResolve(a, name) ==
   /\ scanning' = scanning \ {a}
   /\ name # NoName
   /\ LET b == metas[name]
-         key == CurOp(a).who
-         sid == IF key \in DOMAIN sidOfOp THEN sidOfOp[key] ELSE (IF CurOp(a).who[1] = "init" THEN 900 + CurOp(a).who[2] ELSE 0)
+         sid == loc[a].sid
      IN IF sid # 0 /\ HasSnap(b, sid)
         THEN /\ loc' = [loc EXCEPT ![a].base = b, ![a].baseName = name, ![a].sid = sid, ![a].draft = DeleteSnap(b, sid)]
              /\ pc' = [pc EXCEPT ![a] = "c_tlock"]
@@ -1396,6 +1414,7 @@ CommitterNext(a) ==
   \/ WriteMeta(a, MName(a))
   \/ Fence(a) \/ FlipHint(a) \/ DUnlock(a) \/ TUnlock(a) \/ Backoff(a)
   \/ ("after" \in FaultKinds /\ AfterMetaWriteFail(a))
+  \/ ("locktimeout" \in FaultKinds /\ lockHolder \notin {"none", a} /\ LockTimeout(a))
   \/ \E f \in loc[a].marks : DeleteMarker(a, f) \/ RollbackDeleteMarker(a, f)
   \/ \E f \in SeqToSet(loc[a].files) : RollbackDeleteData(a, f)
   \/ ReturnOk(a) \/ ReturnErr(a) \/ Finish(a) \/ Heartbeat(a) \/ DiscardMeta(a)
